@@ -5,7 +5,7 @@ import core
 from core import hx
 
 ID = "C11"
-READY = False
+READY = True
 ORACLE = "c11"
 HARNESS_BIN = "c11"
 NCASES = {"quick": 2600, "thorough": 60000}
@@ -15,19 +15,28 @@ BASES = [2, 2, 3, 10, 10, 16, 36]
 # the checker relies on CoqInterval: exactly the four standard-library axioms of the classical reals
 EXTRA_AXIOMS = ()
 
-LEVEL_TEXT = ("Coq theorems: (1) soundness of the certified checkers check_exp / check_expm1 / check_ln / check_ln1p / check_powi / "
-              "check_powf - whenever a checker accepts an answer r for precision p, base B, then B^E <= |t| and |r - t| < B^(E-p+1) "
-              "for the true real value t (r is within one ulp of t), and an answer flagged Exact is accepted only if r = t; a "
-              "rejection proves the opposite; built on CoqInterval's I.exp_correct / I.ln_correct / I.power_int_correct and the "
-              "monotonicity of exp for the logarithm; (2) the entry logic of the six functions (as-is model of the checks and "
-              "shortcuts in exp.rs / log.rs): unlimited precision panics, every value returned Exact (exp 0, exp_m1 0, ln 1, ln_1p 0, "
-              "x^0, x^1 when x fits, exact powers at unlimited precision) equals the true value, the domain panic of ln. "
-              "Every implementation answer of the correspondence run is decided by the extracted checker.")
+LEVEL_TEXT = ("Coq theorems (coq/props/C11.v, 33 pinned): (1) soundness of the certified checkers check_exp / check_expm1 / check_ln / "
+              "check_ln1p / check_powi / check_powf for ALL inputs and all working precisions, Newton schedules and exponent guesses: a "
+              "verdict VAccept proves r = t or B^E <= |t| and |r - t| < B^(E-p+1) for the true real value t (exp x, exp x - 1, ln x, "
+              "ln(1+x), x^n, x^y as real numbers) and r = t if the answer was flagged Exact; VReject proves |t| < B^(E+1) and "
+              "|r - t| >= B^(E-p+1) (or an untruthful Exact); the two are exclusive. Built on CoqInterval (I.exp_correct, "
+              "I.power_int_correct, interval arithmetic), exp/ln facts of the standard library (1 + x <= exp x, monotonicity for the "
+              "logarithm bracket exp a <= x <= exp b, second-order bounds that keep the enclosure strictly away from x) and exact "
+              "integer decisions where the true value is a float. (2) Entry logic of the six functions (as-is model of the checks and "
+              "shortcuts of exp.rs / log.rs): unlimited precision panics (powi: iff the exponent is negative), every value returned "
+              "Exact (exp 0, exp_m1 0, ln 1, ln_1p 0, x^0, exact powers at unlimited precision, 0^y, x^1 = repr_round x) is the true "
+              "value, ln / ln_1p panic exactly outside the domain, powf panics for negative bases. (3) For the open finding in the "
+              "directed modes: soundness of the as-is accuracy check (less than 2 ulps of the result) and four machine-checked "
+              "refutations of the one-ulp claim for answers the implementation returns. Every implementation answer of the "
+              "correspondence run is decided by the extracted checker.")
 LEVEL_NOTE = ("PARTIAL: that the heuristic guard digits of the series code suffice for ALL precisions and arguments is NOT proved (the "
-              "series code is not modelled: its stop criterion goes through f32 log2 estimates); accuracy is decided per generated "
-              "instance by the certified checker, undecided instances are counted and reported, never passed. Trusted: Coq kernel, "
-              "CoqInterval/Flocq/Coquelicot, extraction (+FastZ.v, + one stub for sig_forall_dec), zarith, harness. The OCaml driver only "
-              "chooses working precisions (cannot turn a wrong answer into an accepted one).")
+              "series / powering code is not modelled: its stop criterion goes through f32 log2 estimates); accuracy is decided per "
+              "generated instance by the certified checker; undecided instances (results exactly one ulp from an exactly representable "
+              "x^y with fractional y, where no enclosure can decide) are counted and reported, never passed. In the directed modes "
+              "errors between 1 and 2 ulps are the open finding directed_faithful, so a regression inside that band is not visible "
+              "there (it is in the two nearest modes). Trusted: Coq kernel, CoqInterval/Flocq/Coquelicot, extraction (+FastZ.v, + one "
+              "stub for sig_forall_dec), zarith, harness. The OCaml driver only chooses working precisions (it cannot turn a wrong "
+              "answer into an accepted one).")
 TECHNIQUE = "Coq proof (certified interval checker on CoqInterval, entry-logic model) + per-instance decision of every implementation answer"
 RULE = ("cases = op {exp, exp_m1, ln, ln_1p, powi, powf; Context and FBig forms} x base {2,3,10,16,36} x six modes x precision "
         "{1,2,3,4,5,7,10,16,17,20,33,53,64,100,200,300 (1000, 3000 thorough)} x argument classes: zero, tiny (B^-1000 .. B^-(p+2)), "
